@@ -254,6 +254,10 @@ func TestC01E2E(t *testing.T) {
 		// payload
 		lsys := storeutil.LinkSystemForBlockstore(S.bs)
 		storeCfg := r.Intn(4) // 0 default stores, 1 per-channel store on the receiver, 2 on the sender, 3 both
+		earlyRestart := scenario == 3 && (c.Index/12)%5 != 4
+		if earlyRestart && r.Intn(3) != 0 {
+			storeCfg |= 1 // the re-applied transport options matter when the receiver has a store of its own
+		}
 		if storeCfg >= 2 {
 			S.own = bstore.NewBlockstore(dss.MutexWrap(datastore.NewMapDatastore()))
 			lsys = storeutil.LinkSystemForBlockstore(S.own)
@@ -382,6 +386,17 @@ func TestC01E2E(t *testing.T) {
 		}
 		if err != nil {
 			c.Note("open failed: %v", err)
+		}
+		if earlyRestart {
+			// the initiator restarts the channel while the responder still holds it paused, i.e. before
+			// the first block has moved (transport options such as the per-channel store are applied again)
+			go func() {
+				time.Sleep(50 * time.Millisecond)
+				if err := I.dt.RestartDataTransferChannel(ctx, chid); err != nil {
+					c.Note("early restart: %v", err)
+				}
+			}()
+			c.Count("restarts_before_first_block", 1)
 		}
 		// let everything run: longer than every configured timer
 		time.Sleep(20 * time.Minute)
